@@ -130,8 +130,10 @@ def visit(visitor, obj, attr, glyphs):
 
         if g.isComposite():
             for component in g.components:
-                component.x = visitor.scale(component.x)
-                component.y = visitor.scale(component.y)
+                if hasattr(component, "x"):
+                    # offsets; point-matched components have none
+                    component.x = visitor.scale(component.x)
+                    component.y = visitor.scale(component.y)
             continue
 
         if hasattr(g, "coordinates"):
